@@ -55,6 +55,21 @@ def enclosing_fn(lines, lineno):
     return "?"
 
 
+def _in_proof_fn(lines, lineno):
+    """is the requires clause at `lineno` part of a `proof fn` / `axiom fn` header (ghost), as opposed to an assume_specification?"""
+    i = lineno - 1
+    while i >= 0:
+        t = lines[i].strip()
+        if "assume_specification" in t:
+            return False
+        if re.search(r"\b(proof|axiom)\s+fn\b", t):
+            return True
+        if t.startswith("}") or t == "":
+            return False
+        i -= 1
+    return False
+
+
 class VerusResult:
     def __init__(self):
         self.ok = False
@@ -179,7 +194,28 @@ def run_verus(path, seed=0, rlimit=30, threads=4, multiple_errors=5, timeout=900
                         cname = mm.group(1)
         if cname:
             kind = f"{kind}[{cname}]"
-        res.failures.append({"kind": kind, "fn": fn, "line": site_line, "message": msg, "clause": clause[:300],
+        # is the violated precondition that of an executable std/dependency function (a potential panic), or of a lemma?
+        exec_pre = False
+        if kind.startswith("pre"):
+            fp = [sp for sp in d.get("spans", []) if "failed precondition" in (sp.get("label") or "")]
+            if not fp:
+                exec_pre = True            # e.g. built-in index/arith preconditions carry no clause span
+            for sp in fp:
+                if os.path.basename(sp.get("file_name", "")) != base:
+                    exec_pre = True        # clause lives in vstd
+                else:
+                    ln = sp.get("line_start", 0)
+                    # inside an included trusted prelude module?
+                    depth = None
+                    for k in range(ln - 1, -1, -1):
+                        if lines[k].startswith("// <<< include: prelude/"):
+                            break
+                        if lines[k].startswith("// >>> include: prelude/"):
+                            depth = k
+                            break
+                    if depth is not None and "proof fn" not in lines[ln - 1] and not _in_proof_fn(lines, ln):
+                        exec_pre = True
+        res.failures.append({"kind": kind, "fn": fn, "line": site_line, "message": msg, "clause": clause[:300], "exec_pre": exec_pre,
                              "src": lines[site_line - 1].strip() if 0 < site_line <= len(lines) else "",
                              "rendered": d.get("rendered", "")})
     res.ok = (js is not None and not res.undecided and not res.failures and res.errors == 0
